@@ -380,6 +380,9 @@ def rate_limit(tokeniser: 'Tokeniser') -> ExtendedCommunities:
         unit = 'bytes'
 
     if unit == 'packets':
+        # the rate travels as an IEEE 32-bit float: a larger number escaped as struct.error / OverflowError
+        if speed > MAX_RATE_LIMIT_BPS:
+            raise ValueError(f'rate-limit {speed} packets is too large (at most {MAX_RATE_LIMIT_BPS})')
         return ExtendedCommunities().add(TrafficRatePackets.make_traffic_rate_packets(ASN(0), speed))
 
     if speed < MIN_RATE_LIMIT_BPS and speed != 0:
